@@ -14,6 +14,7 @@ The line propagation itself (what the receiver sees before tx / add-drop noise i
 arrays, CD, PMD, PDL) is an *input* of this model (C01–C05 pin it).
 -/
 namespace Gnpy.Verdict
+open Gnpy.HE
 
 /-! ## numeric part (polymorphic: `Float` in the driver, `ℝ` in the theorems) -/
 section numeric
